@@ -1,0 +1,165 @@
+//go:build verif
+
+package dblookupext
+
+// Contracts for govc (/verif), property C46. Comment-only file: no executable code, not part of the default build.
+//
+// Abstract store model. The storers are interfaces, so their content is not part of the Go heap the verifier sees.
+// It is modelled by GHOST CELLS: icell(s,k,f) / scell(s,k,f) are (uninterpreted, pairwise distinct) one-element slices
+// chosen per store s, key content k and field number f; icell holds an integer, scell a byte string ([0] reads it,
+// `assigns elems(icell(..))` is a write of exactly that cell).
+//   epoch index        icell(h,0)     = epoch + 1        (0 = no entry)
+//   tx-hash index      icell(tx,0)    = 1 when present,  scell(tx,0) = miniblock hash
+//   metadata store (epoch-partitioned: PutInEpoch/GetFromEpoch), e = epoch of the record
+//                      icell(h,8*e+0) = 1 when a record is stored in epoch e
+//                      scell(h,8*e+1) = HeaderHash            icell(h,8*e+2) = Epoch field
+//                      icell(h,8*e+3) = NotarizedAtSourceInMetaNonce   icell(h,8*e+4) = NotarizedAtDestinationInMetaNonce
+// ccell(c,k) is the same device for the deduplication cache (1 = the key has been put at some time; an LRU cache may
+// forget, so Has() implies "was put", not the converse).
+
+/*@
+// icell / scell / ccell / sid: ghost cells of the storage interfaces, declared in storage/contracts_verif.go
+spec fn mbHashOf(mb *block.MiniBlock) string
+spec fn dedupKey(epoch uint32, h string) string
+  axiom dedupEpoch(dedupKey(epoch, h)) == epoch
+  axiom dedupHash(dedupKey(epoch, h)) == h
+spec fn dedupEpoch(k string) uint32
+spec fn dedupHash(k string) string
+
+spec fn mdi(hr *historyRepository, h string, e int, f int) int = icell(hr.miniblocksMetadataStorer, h, 8*e + f)[0]
+spec fn mds(hr *historyRepository, h string, e int, f int) string = scell(hr.miniblocksMetadataStorer, h, 8*e + f)[0]
+spec fn epochOf(hr *historyRepository, h string) int = icell(hr.epochByHashIndex.storer, h, 0)[0]
+spec fn marked(hr *historyRepository, e uint32, h string) bool = ccell(hr.deduplicationCacheForInsertMiniblockMetadata, dedupKey(e, h))[0] == 1
+spec fn wired(hr *historyRepository) bool = hr.epochByHashIndex != nil && !isNil(hr.miniblocksMetadataStorer) && !isNil(hr.miniblockHashByTxHashIndex) && !isNil(hr.epochByHashIndex.storer) && !isNil(hr.deduplicationCacheForInsertMiniblockMetadata)
+  && sid(hr.miniblocksMetadataStorer) != sid(hr.epochByHashIndex.storer)
+  && sid(hr.miniblocksMetadataStorer) != sid(hr.miniblockHashByTxHashIndex)
+  && sid(hr.miniblockHashByTxHashIndex) != sid(hr.epochByHashIndex.storer)
+
+// ---- interfaces (storage.Storer / storage.Cacher contracts: storage/contracts_verif.go) -------------------------
+func (h data.HeaderHandler) GetRound() (r uint64)
+  pure
+func (h data.HeaderHandler) GetNonce() (r uint64)
+  pure
+func (h data.HeaderHandler) GetEpoch() (r uint32)
+  pure
+func (h data.HeaderHandler) GetShardID() (r uint32)
+  pure
+
+func newErrCannotSaveEpochByHash(what string, hash []byte, originalErr error) (err error)
+  ensures is-error: err != nil
+  assigns nothing
+
+func newErrCannotSaveMiniblockMetadata(hash []byte, originalErr error) (err error)
+  ensures is-error: err != nil
+  assigns nothing
+
+// ---- marshal + store wrappers: TRUSTED models (Marshal/Unmarshal of a protobuf record is lossless) --------------
+func (i *epochByHashIndex) saveEpochByHash(hash []byte, epoch uint32) (err error)
+  trusted
+  requires !isNil(i.storer)
+  ensures saved: err == nil ==> icell(i.storer, str(hash), 0)[0] == epoch + 1
+  assigns elems(icell(i.storer, str(hash), 0))
+
+func (i *epochByHashIndex) getEpochByHash(hash []byte) (e uint32, err error)
+  trusted
+  requires !isNil(i.storer)
+  ensures found: err == nil ==> icell(i.storer, str(hash), 0)[0] == e + 1
+  assigns nothing
+
+func (hr *historyRepository) computeMiniblockHash(miniblock *block.MiniBlock) (h []byte, err error)
+  trusted
+  ensures is-hash: err == nil ==> str(h) == mbHashOf(miniblock)
+  assigns nothing
+
+func (hr *historyRepository) putMiniblockMetadata(hash []byte, metadata *MiniblockMetadata) (err error)
+  trusted
+  requires wired(hr) && metadata != nil
+  ensures stored: err == nil ==> mdi(hr, str(hash), metadata.Epoch, 0) == 1
+    && mds(hr, str(hash), metadata.Epoch, 1) == str(metadata.HeaderHash)
+    && mdi(hr, str(hash), metadata.Epoch, 2) == metadata.Epoch
+    && mdi(hr, str(hash), metadata.Epoch, 3) == metadata.NotarizedAtSourceInMetaNonce
+    && mdi(hr, str(hash), metadata.Epoch, 4) == metadata.NotarizedAtDestinationInMetaNonce
+  assigns elems(icell(hr.miniblocksMetadataStorer, str(hash), 8*metadata.Epoch + 0)),
+    elems(scell(hr.miniblocksMetadataStorer, str(hash), 8*metadata.Epoch + 1)),
+    elems(icell(hr.miniblocksMetadataStorer, str(hash), 8*metadata.Epoch + 2)),
+    elems(icell(hr.miniblocksMetadataStorer, str(hash), 8*metadata.Epoch + 3)),
+    elems(icell(hr.miniblocksMetadataStorer, str(hash), 8*metadata.Epoch + 4))
+
+func (hr *historyRepository) getMiniblockMetadataByMiniblockHash(hash []byte) (md *MiniblockMetadata, err error)
+  trusted
+  requires wired(hr)
+  ensures found: err == nil ==> md != nil && epochOf(hr, str(hash)) >= 1
+    && mdi(hr, str(hash), epochOf(hr, str(hash)) - 1, 0) == 1
+    && mds(hr, str(hash), epochOf(hr, str(hash)) - 1, 1) == str(md.HeaderHash)
+    && mdi(hr, str(hash), epochOf(hr, str(hash)) - 1, 2) == md.Epoch
+    && mdi(hr, str(hash), epochOf(hr, str(hash)) - 1, 3) == md.NotarizedAtSourceInMetaNonce
+    && mdi(hr, str(hash), epochOf(hr, str(hash)) - 1, 4) == md.NotarizedAtDestinationInMetaNonce
+  assigns nothing
+
+// ---- deduplication cache ------------------------------------------------------------------------------------------
+func (hr *historyRepository) buildKeyOfDeduplicationCacheForInsertMiniblockMetadata(miniblockHash []byte, epoch uint32) (key []byte)
+  trusted
+  ensures injective-key: str(key) == dedupKey(epoch, str(miniblockHash))
+  assigns nothing
+
+func (hr *historyRepository) hasRecentlyInsertedMiniblockMetadata(miniblockHash []byte, epoch uint32) (r bool)
+  requires wired(hr)
+  ensures was-marked: r ==> marked(hr, epoch, str(miniblockHash))
+  assigns nothing
+
+func (hr *historyRepository) markMiniblockMetadataAsRecentlyInserted(miniblockHash []byte, epoch uint32)
+  requires wired(hr)
+  ensures marked: marked(hr, epoch, str(miniblockHash))
+  assigns elems(ccell(hr.deduplicationCacheForInsertMiniblockMetadata, dedupKey(epoch, str(miniblockHash))))
+
+// ---- the property -------------------------------------------------------------------------------------------------
+// C46: after a successful record of miniblock mb in block blockHeaderHash (epoch e) the lookup data of H(mb) names THIS block.
+func (hr *historyRepository) recordMiniblock(blockHeaderHash []byte, blockHeader data.HeaderHandler, miniblock *block.MiniBlock, epoch uint32) (err error)
+  requires wired(hr) && miniblock != nil && !isNil(blockHeader)
+  // (a) the miniblock was not marked as recently inserted for this epoch: the record is written
+  ensures fresh-epoch-index: err == nil && !old(marked(hr, epoch, mbHashOf(miniblock))) ==> epochOf(hr, mbHashOf(miniblock)) == epoch + 1
+  ensures fresh-present: err == nil && !old(marked(hr, epoch, mbHashOf(miniblock))) ==> mdi(hr, mbHashOf(miniblock), epoch, 0) == 1
+  ensures fresh-header-hash: err == nil && !old(marked(hr, epoch, mbHashOf(miniblock))) ==> mds(hr, mbHashOf(miniblock), epoch, 1) == str(blockHeaderHash)
+  ensures fresh-epoch-field: err == nil && !old(marked(hr, epoch, mbHashOf(miniblock))) ==> mdi(hr, mbHashOf(miniblock), epoch, 2) == epoch
+  ensures marked: err == nil ==> marked(hr, epoch, mbHashOf(miniblock))
+  // (b) C46 asks the same when the miniblock WAS recorded before in this epoch (competing block): F46 — these fail on the
+  //     deduplication-hit return, where nothing is written although blockHeaderHash may differ from the stored one
+  ensures rerecord-header-hash: err == nil && old(marked(hr, epoch, mbHashOf(miniblock))) ==> mds(hr, mbHashOf(miniblock), epoch, 1) == str(blockHeaderHash)
+  ensures rerecord-epoch-index: err == nil && old(marked(hr, epoch, mbHashOf(miniblock))) ==> epochOf(hr, mbHashOf(miniblock)) == epoch + 1
+
+loop 1
+  // an interface call with a frame inside the loop makes the engine havoc the whole heap at the loop head: restate what is kept
+  invariant -1 <= rangeindex && rangeindex < len(miniblock.TxHashes)
+  invariant miniblock.TxHashes == old(miniblock.TxHashes)
+  invariant hr.miniblockHashByTxHashIndex == old(hr.miniblockHashByTxHashIndex) && hr.miniblocksMetadataStorer == old(hr.miniblocksMetadataStorer)
+    && hr.epochByHashIndex == old(hr.epochByHashIndex) && hr.epochByHashIndex.storer == old(hr.epochByHashIndex.storer)
+    && hr.deduplicationCacheForInsertMiniblockMetadata == old(hr.deduplicationCacheForInsertMiniblockMetadata)
+  invariant wired(hr)
+  invariant str(blockHeaderHash) == old(str(blockHeaderHash))
+  invariant epochOf(hr, mbHashOf(miniblock)) == epoch + 1 && mdi(hr, mbHashOf(miniblock), epoch, 0) == 1
+    && mds(hr, mbHashOf(miniblock), epoch, 1) == str(blockHeaderHash) && mdi(hr, mbHashOf(miniblock), epoch, 2) == epoch
+    && marked(hr, epoch, mbHashOf(miniblock))
+
+func (hr *historyRepository) GetMiniblockMetadataByTxHash(hash []byte) (md *MiniblockMetadata, err error)
+  requires wired(hr)
+  ensures reports-indexed-miniblock: err == nil ==> md != nil && icell(hr.miniblockHashByTxHashIndex, str(hash), 0)[0] == 1
+    && epochOf(hr, scell(hr.miniblockHashByTxHashIndex, str(hash), 0)[0]) >= 1
+    && mdi(hr, scell(hr.miniblockHashByTxHashIndex, str(hash), 0)[0], epochOf(hr, scell(hr.miniblockHashByTxHashIndex, str(hash), 0)[0]) - 1, 0) == 1
+    && mds(hr, scell(hr.miniblockHashByTxHashIndex, str(hash), 0)[0], epochOf(hr, scell(hr.miniblockHashByTxHashIndex, str(hash), 0)[0]) - 1, 1) == str(md.HeaderHash)
+    && mdi(hr, scell(hr.miniblockHashByTxHashIndex, str(hash), 0)[0], epochOf(hr, scell(hr.miniblockHashByTxHashIndex, str(hash), 0)[0]) - 1, 2) == md.Epoch
+  assigns nothing
+
+// record, then look up (over the contracts): after the FIRST record of a miniblock in an epoch the lookup by miniblock
+// hash names that block and epoch. (For a re-record in a competing block this is exactly what F46 breaks.)
+lemma lookup-after-first-record-names-the-block
+  vars hr *historyRepository, h []byte, hdr data.HeaderHandler, mb *block.MiniBlock, e uint32, mbh []byte
+  hyp  wired(hr) && mb != nil && !isNil(hdr) && !marked(hr, e, mbHashOf(mb))
+  call err = hr.recordMiniblock(h, hdr, mb, e)
+  call md, err2 = hr.getMiniblockMetadataByMiniblockHash(mbh)
+  concl names-this-block: err == nil && err2 == nil && str(mbh) == mbHashOf(mb) ==> str(md.HeaderHash) == str(h) && md.Epoch == e
+
+func (hr *historyRepository) GetEpochByHash(hash []byte) (e uint32, err error)
+  requires wired(hr)
+  ensures from-index: err == nil ==> epochOf(hr, str(hash)) == e + 1
+  assigns nothing
+@*/
